@@ -792,6 +792,11 @@ func TestC01(t *testing.T) {
 			cfg := &SubCfg{Topic: "t", TTL: 24 * 3600 * Sec, MTTL: 3600 * Sec}
 			reportedSuccessIsReal("C01", []Op{{K: "create_topic", Topic: "t"}, {K: "create_sub", Sub: "a", Cfg: cfg}, {K: "create_sub", Sub: "b", Cfg: cfg}},
 				Op{K: "publish", Topic: "t", Msgs: []MsgSpec{{N: 0}, {N: 1}}}, "the messages are not stored / not enqueued on every subscription: an accepted message is lost")(t, st)
+			if !hasConcrete(st.Violations) {
+				// and through the gRPC handler (its error mapping lies between the storage failure and the answer)
+				reportedSuccessIsReal("C01", []Op{{K: "create_topic", Topic: "t"}, {K: "create_sub", Sub: "a", Cfg: cfg}, {K: "create_sub", Sub: "b", Cfg: cfg}},
+					Op{K: "publish", Topic: "t", Via: "handler", Msgs: []MsgSpec{{N: 0}, {N: 1}}}, "the messages are not stored / not enqueued on every subscription: an accepted message is lost")(t, st)
+			}
 		}
 	}, profile: profC01, quickSeeds: 40, thoroughSeeds: 1600, nops: 100, drain: true})
 }
@@ -858,6 +863,14 @@ func TestC03(t *testing.T) {
 			reportedSuccessIsReal("C03", []Op{{K: "create_topic", Topic: "t"}, {K: "create_sub", Sub: "a", Cfg: cfg}, {K: "publish", Topic: "t", Msgs: []MsgSpec{{N: 0}, {N: 1}}},
 				{K: "advance", D: int64(time.Millisecond)}, {K: "pull", Sub: "a", Max: 5}},
 				Op{K: "ack", Refs: []Ref{{N: 0, Sub: "a"}, {N: 1, Sub: "a"}}}, "the deliveries are not completed: the acknowledged messages will be delivered again")(t, st)
+			if !hasConcrete(st.Violations) {
+				reportedSuccessIsReal("C03", []Op{{K: "create_topic", Topic: "t"}, {K: "create_sub", Sub: "a", Cfg: cfg}, {K: "publish", Topic: "t", Msgs: []MsgSpec{{N: 0}, {N: 1}}},
+					{K: "advance", D: int64(time.Millisecond)}, {K: "pull", Sub: "a", Max: 5}},
+					Op{K: "ack", Via: "handler", Refs: []Ref{{N: 0, Sub: "a"}, {N: 1, Sub: "a"}}}, "the deliveries are not completed: the acknowledged messages will be delivered again")(t, st)
+			}
+			if !hasConcrete(st.Violations) {
+				streamAckNotLost(t, st)
+			}
 		}
 	}, profile: profC03, quickSeeds: 40, thoroughSeeds: 1600, nops: 100})
 }
@@ -897,6 +910,21 @@ func streamLease(t *testing.T, st *Stats) {
 		if r.sig == "stall" || r.sig == "bound" || r.sentTotal < 3 {
 			p := ReplayPath(fmt.Sprintf("C04-stream-%s-%d.json", cs.Name, Seed()))
 			what := fmt.Sprintf("a StreamingPull request carried ack_ids=[A] and modify_deadline_ack_ids=[B] with 0 seconds: B was not handed out again at once (%d sends in all, expected A, B, B) %s", r.sentTotal, r.violation)
+			b, _ := json.MarshalIndent(c11Replay{Property: "C04", Sig: "stream-zero-deadline-ignored", Seed: Seed(), Case: cs, What: what}, "", " ")
+			os.WriteFile(p, b, 0o644)
+			st.Violate(Violation{What: "[stream-zero-deadline-ignored] " + what, Replay: p, FoundInput: true, Sig: "stream-zero-deadline-ignored"})
+			return
+		}
+	}
+	// a deadline extension followed by a zero deadline for the same message on one stream: the zero deadline
+	// is what counts (each request of a stream is taken for itself)
+	{
+		cs := c11Case{Name: "lease-extend-then-zero-deadline-grpc", Grpc: true, Actions: []c11Action{{K: "fc", Msgs: 3, Byts: 10000}, {K: "publish", Pads: []int{0}}, {K: "extend", Pick: []int{0}}, {K: "delay0", Pick: []int{0}}, {K: "advance", D: 2 * Sec}}}
+		r := c11Run(t, Seed(), cs, map[string]bool{"stall-head-of-line": true})
+		st.Count("stream_lease_cases", 1)
+		if r.sentTotal < 2 {
+			p := ReplayPath(fmt.Sprintf("C04-stream-%s-%d.json", cs.Name, Seed()))
+			what := fmt.Sprintf("on one StreamingPull stream the client first extends the deadline of message m, then sends a zero deadline for it: 2 s later m has been sent %d time(s) in all (expected again at once) %s", r.sentTotal, r.violation)
 			b, _ := json.MarshalIndent(c11Replay{Property: "C04", Sig: "stream-zero-deadline-ignored", Seed: Seed(), Case: cs, What: what}, "", " ")
 			os.WriteFile(p, b, 0o644)
 			st.Violate(Violation{What: "[stream-zero-deadline-ignored] " + what, Replay: p, FoundInput: true, Sig: "stream-zero-deadline-ignored"})
@@ -1056,6 +1084,9 @@ func TestC15(t *testing.T) {
 		recreatedStream(t, st)
 		if !hasConcrete(st.Violations) {
 			pruneServiceLoop(t, st)
+		}
+		if !hasConcrete(st.Violations) {
+			streamPruneInvisible(t, st)
 		}
 	}, prop: "C15", profile: profC15, quickSeeds: 25, thoroughSeeds: 1000, nops: 100, metamorphic: true})
 }
